@@ -220,6 +220,13 @@ func build(d M) (*built, error) {
 		if user == "u" && pass == "p" {
 			return "principal", nil
 		}
+		// how the application's callback rejects credentials: a 401, another API error, or an error without status
+		switch drv.Str(d["rejclass"]) {
+		case "403":
+			return nil, errors.New(http.StatusForbidden, "forbidden")
+		case "plain":
+			return nil, stderrors.New("wrong credentials")
+		}
 		return nil, errors.Unauthenticated("basic")
 	}
 	switch drv.Int(d["authkind"]) {
@@ -462,7 +469,7 @@ func asciiOnly(s string) string {
 
 var (
 	jsonE = entry{"application", "json", ""}
-	pool  = []entry{{"a", "x", ""}, {"t", "p", ""}, {"t", "p", "; charset=utf-8"}, jsonE, {"a", "x", ";q=1"}}
+	pool  = []entry{{"a", "x", ""}, {"t", "p", ""}, {"t", "p", "; charset=utf-8"}, jsonE, {"a", "x", "; charset=utf-8; version=0.0.4"}}
 )
 
 func R(t, s string, q int) M { return M{"t": t, "s": s, "q": q} }
@@ -486,7 +493,7 @@ var outcomes = []M{
 	{"k": "libresponder", "class": "notimplemented", "code": 501, "scripted": false},
 }
 
-var declaredSets = [][]int{{200}, {201, 200}, {204}, {204, 201}, {0}, {0, 200}, {404, 0}}
+var declaredSets = [][]int{{200}, {201, 200}, {204}, {204, 201}, {0}, {0, 200}, {404, 0}, {205}, {206, 205}, {203, 202}}
 var registries = [][]string{{"a/x", "t/p", "application/json"}, {"a/x", "application/json"}, {"t/p", "application/json"}}
 
 func permutations(es []entry) [][]entry {
@@ -560,7 +567,7 @@ func descriptor(declaredProduces, routeOrder []entry, def entry, registry []stri
 		rp = append(rp, e.JSON())
 	}
 	return M{"produces": ps, "route_produces": rp, "default": def.JSON(), "registry": registry, "declared": declared,
-		"where": []string{"op", "global"}[idx%2], "ids": (idx/2)%2 == 0, "secure": "none", "realm": "", "defrealm": []string{"API", "First"}[(idx/3)%2], "authkind": 0, "reqs": []M{},
+		"where": []string{"op", "global"}[idx%2], "ids": (idx/2)%2 == 0, "secure": "none", "realm": "", "defrealm": []string{"API", "First"}[(idx/3)%2], "authkind": 0, "rejclass": []string{"401", "403", "plain"}[idx%3], "reqs": []M{},
 		"serveerr_order": []string{"before", "after", "replace"}[(idx/5)%3]}
 }
 
@@ -723,7 +730,7 @@ func generate(c *drv.Ctx) {
 	if thorough {
 		nRand = 3000
 	}
-	big := append(append([]entry{}, pool...), entry{"t", "q", ""}, entry{"t", "q", ";charset=UTF-8"}, entry{"a", "y", "; version=1"}, entry{"application", "json", "; charset=utf-8"})
+	big := append(append([]entry{}, pool...), entry{"t", "q", ""}, entry{"t", "q", ";charset=UTF-8"}, entry{"a", "y", "; version=1"}, entry{"t", "p", ";charset=utf-8;version=0.0.4"}, entry{"t", "q", "; a=1; b=2; c=3"}, entry{"application", "json", "; charset=utf-8"})
 	for n := 0; n < nRand; n++ {
 		var set []entry
 		for _, e := range big {
